@@ -14,7 +14,7 @@
      Next:  consults Err and Done; its only literal is the zero id that ends the stream;
      Close: done() then Wait().
    Added calls keep them true (sub-sequence); removing or reordering one of these breaks them. *)
-From Coq Require Import ZArith List String Bool.
+From Coq Require Import ZArith List String Ascii Bool.
 From VerifGen Require Import GenOrder.
 Import ListNotations.
 Open Scope string_scope.
@@ -29,32 +29,65 @@ Fixpoint subseqb (pat l : list string) : bool :=
 Definition count_of (s : string) (l : list string) : nat :=
   List.length (filter (String.eqb s) l).
 
+(* Robustness (C14 builder, robustness wave): call names are compared after dropping the
+   qualifier -- "o.walk", "c.walk" and ".walk" are the same call, so renaming the receiver or a
+   package alias does not matter; and the producer's two deferred calls (wg.Done, close(out))
+   are required to be present, in any order and inside one deferred closure or two; Close must
+   call something (the cancel function, whatever its field is called) before Wait; and the
+   fingerprints are the FLATTENED ones (flat_*: helper bodies spliced in at the call site by
+   translator/cmd/order), so extracting emit / history / walkMembers / run changes nothing. *)
+Fixpoint after_dot (s : string) : option string :=
+  match s with
+  | EmptyString => None
+  | String c r =>
+      match after_dot r with
+      | Some t => Some t
+      | None => if Ascii.eqb c "."%char then Some (String c r) else None
+      end
+  end.
+Definition norm (s : string) : string := match after_dot s with Some t => t | None => s end.
+Definition ncalls (l : list string) : list string := map norm l.
+
 Lemma gen_walk_skeleton :
-  subseqb [".RelationHistory"; ".NotFound"; "osm.RelationID"; "o.walk"; "append"; ".Err"; ".Done"]
-          calls_ChildFirstOrdering_walk = true.
+  subseqb [".RelationHistory"; ".NotFound"; ".RelationID"; ".walk"; "append"; ".Err"; ".Done"]
+          (ncalls flat_calls_ChildFirstOrdering_walk) = true.
 Proof. vm_compute. reflexivity. Qed.
 
 Lemma gen_walk_one_lookup_one_recursion :
-  count_of ".RelationHistory" calls_ChildFirstOrdering_walk = 1%nat /\
-  count_of "o.walk" calls_ChildFirstOrdering_walk = 1%nat /\
-  count_of ".NotFound" calls_ChildFirstOrdering_walk = 1%nat.
+  count_of ".RelationHistory" (ncalls flat_calls_ChildFirstOrdering_walk) = 1%nat /\
+  count_of ".walk" (ncalls flat_calls_ChildFirstOrdering_walk) = 1%nat /\
+  count_of ".NotFound" (ncalls flat_calls_ChildFirstOrdering_walk) = 1%nat.
 Proof. vm_compute. repeat split. Qed.
 
 Lemma gen_walk_no_literals :
-  ints_ChildFirstOrdering_walk = [] /\ lits_ChildFirstOrdering_walk = [].
+  flat_ints_ChildFirstOrdering_walk = [] /\ flat_lits_ChildFirstOrdering_walk = [].
 Proof. vm_compute. split; reflexivity. Qed.
 
 Lemma gen_producer_skeleton :
-  subseqb ["context.WithCancel"; ".Add"; ".Done"; "close"; "o.walk"] calls_NewChildFirstOrdering = true /\
-  existsb (Z.eqb 1) ints_NewChildFirstOrdering = true.
-Proof. vm_compute. split; reflexivity. Qed.
+  subseqb [".WithCancel"; ".Add"; ".walk"] (ncalls flat_calls_NewChildFirstOrdering) = true /\
+  (1 <=? count_of ".Done" (ncalls flat_calls_NewChildFirstOrdering))%nat = true /\
+  (1 <=? count_of "close" (ncalls flat_calls_NewChildFirstOrdering))%nat = true /\
+  existsb (Z.eqb 1) flat_ints_NewChildFirstOrdering = true.
+Proof. vm_compute. repeat split; reflexivity. Qed.
 
 Lemma gen_next_skeleton :
-  subseqb [".Err"; ".Done"] calls_ChildFirstOrdering_Next = true /\
-  ints_ChildFirstOrdering_Next = [0%Z].
+  subseqb [".Err"; ".Done"] (ncalls flat_calls_ChildFirstOrdering_Next) = true /\
+  flat_ints_ChildFirstOrdering_Next = [0%Z].
 Proof. vm_compute. split; reflexivity. Qed.
 
 Lemma gen_err_close_skeleton :
-  subseqb [".Err"] calls_ChildFirstOrdering_Err = true /\
-  subseqb ["o.done"; ".Wait"] calls_ChildFirstOrdering_Close = true.
+  subseqb [".Err"] (ncalls flat_calls_ChildFirstOrdering_Err) = true /\
+  match ncalls flat_calls_ChildFirstOrdering_Close with
+  | c :: rest => negb (String.eqb c ".Wait") && existsb (String.eqb ".Wait") rest
+  | [] => false
+  end = true.
 Proof. vm_compute. split; reflexivity. Qed.
+
+(* the datasource lookups are handed the SAME context the send selects on (the derived one that
+   Close cancels): this is what the LTS of C14/Model.v assumes of a lookup in progress
+   (st_lookup_cancelled).  Field names are free; only their equality is required. *)
+Lemma gen_walk_lookup_context :
+  negb (match walk_lookup_ctx with [] => true | _ => false end) &&
+  negb (match walk_done_ctx with [] => true | _ => false end) &&
+  forallb (fun c => existsb (String.eqb c) walk_done_ctx) walk_lookup_ctx = true.
+Proof. vm_compute. reflexivity. Qed.
